@@ -49,14 +49,27 @@ def gen_tree(rng, depth, k):
             return {'t': 'val', 'key': 'k%d' % k[0], 's': rng.choice(['v', 'w&w', '7'])}
         k[0] += 1
         return {'t': 'boom', 'key': 'k%d' % k[0], 'exc': rng.choice(['ZeroDivisionError', 'KeyError', 'RuntimeError', 'ValueError', 'Exception', 'KeyboardInterrupt'] if rng.random() < 0.15 else ['ZeroDivisionError', 'KeyError', 'RuntimeError', 'ValueError'])}
+    if rng.random() < 0.12:
+        # tal:switch with cases that may carry tal:on-error and fail: a handled failure of a case must not re-open the switch
+        k[0] += 1
+        cases = []
+        for _ in range(rng.choice([2, 3, 3])):
+            e = mk_elem(rng, depth - 1, k, plain=True)
+            e['case'] = rng.choice(['a', 'a', 'b', 'default'])
+            cases.append(e)
+        return {'t': 'switch', 'value': rng.choice(['a', 'a', 'b', 'c']), 'kids': cases}
+    return mk_elem(rng, depth, k)
+
+
+def mk_elem(rng, depth, k, plain=False):
     kids = [gen_tree(rng, depth - 1, k) for _ in range(rng.choice([1, 2, 2, 3]))]
     k[0] += 1
-    if rng.random() < 0.15:
+    if rng.random() < 0.15 and depth > 0 and not plain:
         # the children become the filler of a slot of a macro defined in the prelude; the macro's own element may carry on-error
         return {'t': 'use', 'name': 'm%d' % k[0], 'macro_onerror': rng.random() < 0.5, 'fb': 'M%d' % k[0], 'kids': kids}
     return {'t': 'elem', 'tag': rng.choice(['p', 'div', 'b', 'i']), 'attrs': rng.choice([[], [('class', 'c')], [('id', 'x'), ('title', 'T')], [('class', ''), ('id', 'x')], [('alt', '')]]),
             'onerror': rng.random() < 0.5, 'fb': 'F%d' % k[0], 'structure': rng.random() < 0.2,
-            'wrap': rng.choice([None, None, None, 'define', 'omit', 'condition', 'translate', 'macro']), 'kids': kids}
+            'wrap': rng.choice([None, None, None, 'define', 'omit', 'condition', 'translate'] + ([] if plain else ['macro'])), 'kids': kids}
 
 
 def to_src(n, defs=None):
@@ -69,11 +82,15 @@ def to_src(n, defs=None):
         return '<x metal:use-macro="macros[\'%s\']"><u metal:fill-slot="s">%s</u></x>' % (n['name'], ''.join(to_src(c, defs) for c in n['kids']))
     if n['t'] == 'text':
         return n['s']
+    if n['t'] == 'switch':
+        return '<div tal:switch="\'%s\'">%s</div>' % (n['value'], ''.join(to_src(c, defs) for c in n['kids']))
     if n['t'] == 'val':
         return "${R('%s', '%s')}" % (n['key'], n['s'])
     if n['t'] == 'boom':
         return "${R('%s', None, '%s')}" % (n['key'], n['exc'])
     a = ''.join(' %s="%s"' % kv for kv in n['attrs'])
+    if n.get('case'):
+        a += ' tal:case="%s"' % ('default' if n['case'] == 'default' else "'%s'" % n['case'])
     if n['onerror']:
         a += ' tal:on-error="%s"' % (("structure '<u>%s</u>'" % n['fb']) if n['structure'] else ('string:%s' % n['fb']))
     if n['wrap'] == 'repeat':
@@ -107,6 +124,17 @@ def expected(n, st):
     if n['t'] == 'boom':
         st['log'].append(n['key'])
         raise Raised(n['exc'], n['key'])
+    if n['t'] == 'switch':
+        # the first case that matches (equal value, or `default`) closes the switch *before* it renders: a failure of that
+        # case, handled by its own tal:on-error, does not let a later case render
+        out, open_ = [], True
+        for c in n['kids']:
+            if open_ and (c['case'] == 'default' or c['case'] == n['value']):
+                open_ = False
+                if c['onerror']:
+                    st['nontrivial'] = True
+                out.append(expected(c, st))
+        return '<div>%s</div>' % ''.join(out)
     if n['t'] == 'use':
         before = len(st['log'])
         try:
@@ -202,8 +230,25 @@ def oracle(ctx):
             ctx.violation(j, case, expected=exp, actual=impl)
     ctx.counters['nontrivial'] = len(nt)
     ctx.sample({'template': cons[0][0]['src'], 'expected': cons[0][1]})
+    # D-13d: tal:on-error written on a metal:fill-slot element is dropped (the filler is stored before the handler is wrapped around it)
+    r = pipeline.run_impl({'src': D13D, 'vars': []})
+    if r.get('out') != D13D_EXPECT:
+        ctx.violation('tal:on-error on a fill-slot element must handle a failure of the filler', {'src': D13D}, expected=D13D_EXPECT, actual=r,
+                      finding='D-13d' if (r.get('exc') == 'render' and r.get('cls') == 'NameError') else None)
+    # D-13e: with a dynamic tal:omit-tag the fallback never has the tags, even when the expression says "keep them"
+    r = pipeline.run_impl({'src': D13E, 'vars': []})
+    if r.get('out') != D13E_EXPECT:
+        ctx.violation('the fallback shows the start tag with the static attributes and the end tag', {'src': D13E}, expected=D13E_EXPECT, actual=r,
+                      finding='D-13e' if r.get('out') == 'x' else None)
     ctx.sample({'template': 'A<p tal:on-error="string:E">B<i tal:on-error="string:F">${1/0}</i>C${1/0}</p>D',
                 'rendered': pipeline.run_impl({'src': 'A<p tal:on-error="string:E">B<i tal:on-error="string:F">${1/0}</i>C${1/0}</p>D', 'vars': []}).get('out')})
+
+
+D13D = ('<div metal:define-macro="m"><i metal:define-slot="s">d</i></div>|<div metal:use-macro="template.macros[\'m\']">'
+        '<b metal:fill-slot="s" tal:on-error="string:oops">${bad}</b></div>')
+D13D_EXPECT = '<div><i>d</i></div>|<div><b>oops</b></div>'
+D13E = '<div class="c" tal:omit-tag="False" tal:on-error="string:x">${bad}</div>'
+D13E_EXPECT = '<div class="c">x</div>'
 
 
 def replay(ctx, case):
